@@ -93,13 +93,26 @@ def run(ctx, chk):
                 good = len(oks) == 1 and oks[0].ret[4][0][0] == "agg" and oks[0].ret[4][0][1] == adt_path
                 if good:
                     ops = oks[0].ret[4][0][4]
-                    good = len(ops) == len(fields) and all("next_element" in show(o) and "default" not in show(o).lower() for o in ops)
+                    ftys = [f["ty"] for f in adt["variants"][0]["fields"]]
+                    good = len(ops) == len(fields)
+                    for o, fty in zip(ops, ftys):
+                        # exactly  next_element::<field type>()? .unwrap-or-invalid_length : no wrapper type, no post-processing hook
+                        t = o
+                        depth = 0
+                        while isinstance(t, tuple) and t[0] in ("F", "downcast") and depth < 6:
+                            t = t[1]
+                            depth += 1
+                        okf = an.is_call(t, re.compile(r"Try>::branch$")) and an.is_call(t[2][0], re.compile(r"SeqAccess<'_>>::next_element::<"))
+                        if okf:
+                            m = re.search(r"next_element::<(.*)>$", t[2][0][1])
+                            okf = m is not None and m.group(1).replace(" ", "") == fty.replace(" ", "")
+                        good = good and okf
                     nd = [x for x in oks[0].calls if "Default" in x[0] or short(x[0]) == "default"]
                     good = good and not nd
                 # missing elements are errors
                 errs = [p for p in qp if p.end == "return" and p.ret[0] == "agg" and p.ret[3] == "Err" and "invalid_length" in show(p.ret)]
                 good = good and len(errs) == len(fields)
-                chk.ob("M-serde/visit_seq", sname, good, "visit_seq must build the struct from successive elements and report invalid_length for a missing one (no defaults)", vq[0]["span"])
+                chk.ob("M-serde/visit_seq", sname, good, "visit_seq must build the struct from successive elements of the fields' own types (no deserialize_with / wrapper / default) and report invalid_length for a missing one", vq[0]["span"])
             else:
                 chk.cannot("M-serde/visit_seq", sname, "visit_seq not found uniquely")
             n += 1
